@@ -146,7 +146,9 @@ def gen_held(rng, k):
         if target == "S":
             kinds += ["pub"] * 8 + ["recv"] * 3
         else:
-            kinds += ["recv"] * 5 + ["ring"] * 2 + ["deltopic"] * 2
+            # ({del what=topic} on a loading p2p topic is a recorded finding that costs a driver restart when the load fails:
+            # the fixed scenarios cover it, the random ones meet it less often)
+            kinds += ["recv"] * 5 + ["ring"] * 2 + (["deltopic"] * 2 if target not in ("P", "Q") else [])
         for i in range(rng.choice([1, 2, 3, 4, 5, 6, 8])):
             s = rng.choice(senders)
             kd = rng.choice(kinds)
